@@ -100,6 +100,15 @@ def subMatches (W : World) (a : KAuto) (w : String) : Bool × Bool × List Call 
   let full := reach.filter fun x => x.2 == w.length
   (full.any fun x => a.acc.contains x.1, !full.isEmpty, calls)
 
+/-- the class C01 is stated for: at every point of the word expression no expected literal is a proper
+prefix of another one (otherwise how a typed text splits into values is C12's subject) -/
+def prefixFree (a : KAuto) : Bool :=
+  a.states.all fun q =>
+    let lits := (trans a q).filterMap fun (it, _) => match it with
+      | .lit t _ => some t
+      | _ => none
+    lits.all fun x => lits.all fun y => x == y || !(isPrefix x y)
+
 def maxLevel (a : KAuto) : Nat :=
   a.trans.foldl (fun m t => match itemOfKey t.2.1 with
     | some (.lit _ l) | some (.cmd _ l) | some (.word _ l) => max m l
@@ -114,7 +123,7 @@ def within (W : World) (a : KAuto) (p : String) : List String × List Call × Li
   let (reach, calls0) := subAll W a w
   let best := reach.foldl (fun m x => max m x.2) 0
   let pts := reach.filter fun x => x.2 == best
-  let unique := pts.length ≤ 1
+  let unique := pts.length ≤ 1 && prefixFree a
   match pts.head? with
   | none => ([], calls0, [], unique)
   | some (q, pos) =>
@@ -286,7 +295,14 @@ def complete (W : World) (ws : List String) (p wb : String) : Answer :=
   let allowed := match lf with
     | some q => let f := finish W q p wb; f.2.2.1.foldl addNew (f.2.1.foldl addNew allowed)
     | none => allowed
-  { strict, ambiguous, required, allowed, lenientWord, lenientLast, lenientAmbiguous := amb1 && !amb0 }
+  let lenUnique := match q1 with
+    | some q => (finish W q p wb).2.2.2
+    | none => true
+  let lastUnique := match lf with
+    | some q => (finish W q p wb).2.2.2
+    | none => true
+  { strict, ambiguous, required, allowed, lenientWord, lenientLast,
+    lenientAmbiguous := (amb1 && !amb0) || !lenUnique || !lastUnique }
 
 /-! ### the world of a grammar -/
 
